@@ -198,7 +198,7 @@ _patch_snapshot()
 
 def check(tier, seed, procs):
     depth = 5 if tier == 'quick' else 7
-    res = dbmc.bfs(H, (tier,), depth=depth, procs=procs, time_budget=90 if tier == 'quick' else 1500)
+    res = dbmc.bfs(H, (tier,), depth=depth, procs=procs, time_budget=90 if tier == 'quick' else 900)
     cov = bf.coverage(res, f'2 jobs (root group / nested group), attempts a1 (a2 thorough), b1, resources with a shared de-duplicated id, '
                            f'times {T}, 2 billing dates, 2 token shards, depth {depth}')
     return {'coverage': cov, 'violations': res.violations, 'assumptions': bf.ASSUME + [
